@@ -12,8 +12,17 @@ pub struct Snap {
 }
 
 pub fn snap(root: &Path) -> Snap {
+    snap_with(root, false)
+}
+
+/// Like `snap`, and a symbolic link to a regular file is listed with the content it leads to.
+pub fn snap_following_links(root: &Path) -> Snap {
+    snap_with(root, true)
+}
+
+fn snap_with(root: &Path, links: bool) -> Snap {
     let mut s = Snap::default();
-    fn walk(root: &Path, dir: &Path, s: &mut Snap) {
+    fn walk(root: &Path, dir: &Path, s: &mut Snap, links: bool) {
         let Ok(rd) = std::fs::read_dir(dir) else { return };
         for e in rd.flatten() {
             let p = e.path();
@@ -21,16 +30,19 @@ pub fn snap(root: &Path) -> Snap {
             match e.file_type() {
                 Ok(t) if t.is_dir() => {
                     s.dirs.insert(rel);
-                    walk(root, &p, s);
+                    walk(root, &p, s, links);
                 }
                 Ok(t) if t.is_file() => {
+                    s.files.insert(rel, std::fs::read(&p).unwrap_or_default());
+                }
+                Ok(t) if links && t.is_symlink() && std::fs::metadata(&p).map_or(false, |m| m.is_file()) => {
                     s.files.insert(rel, std::fs::read(&p).unwrap_or_default());
                 }
                 _ => {}
             }
         }
     }
-    walk(root, root, &mut s);
+    walk(root, root, &mut s, links);
     s
 }
 
